@@ -7,13 +7,11 @@ Import ListNotations.
 Open Scope R_scope.
 
 Lemma quest_closed_form w x y z sa sm cd sd : unit4 w x y z -> dip cd sd -> 0 < sa -> 0 < sm -> w <> 0 ->
-  det3 (quest_S w x y z cd sd) <> 0 ->
   exists l, C04_quest_at_root_R w x y z sa sm cd sd = Val l /\ pm_eq l [w;x;y;z].
 Proof.
-  intros Hq' [Hd Hc] Hsa Hsm Hw HD. assert (Hq := Hq'). unfold unit4 in Hq. unfold C04_quest_at_root_R. cbv zeta. orient_unit.
+  intros Hq' [Hd Hc] Hsa Hsm Hw. assert (Hq := Hq'). unfold unit4 in Hq. unfold C04_quest_at_root_R. cbv zeta. orient_unit.
   do 2 (root1 sa sm cd).
   rewrite !(scale_div_cancel sa), !(scale_div_cancel sm) by lra.
-  delta_cancel w x y z cd sd HD.
   eexists. split; [reflexivity|]. unfold pm_eq. cbv [qneg e nth].
   apply (normalise_scaled (2 * w * cd * cd)); [exact Hq' | .. ].
   - assert (0 < cd * cd) by nra. intros E. assert (w * (cd * cd) = 0) by lra. apply Rmult_integral in H0. destruct H0; [contradiction|lra].
